@@ -29,12 +29,14 @@ type c01Pub struct {
 	Off  uint64 `json:"o"`
 	Ep   uint64 `json:"e"`
 	Filt bool   `json:"f"`
+	ID   int    `json:"i,omitempty"` // driver-side identity of the publication (not part of the Coq term)
 }
 
 type c01Tok struct {
 	kind int // 0 publication, 1 join, 2 leave
 	pub  *Publication
 	sp   StreamPosition
+	id   int
 }
 
 type c01Broker struct {
@@ -181,6 +183,8 @@ type c01World struct {
 	blocked chan struct{} // a delivery goroutine parked behind the locked buffer
 	locked  bool          // subscribe thread is between LMerge and LStopBuf
 	errs    []string
+	curPh   int
+	phaseOf map[int]int // publication id -> script phase of its last delivery
 }
 
 func (w *c01World) fail(format string, a ...any) {
@@ -314,7 +318,7 @@ func (w *c01World) opPublish(f bool, size int) {
 	p := c01Pub{Off: res.Offset, Ep: ep, Filt: f}
 	w.byID[id] = p
 	w.glog = append(w.glog, p)
-	w.fl = append(w.fl, w.br.take()...)
+	w.takeTokens(id)
 	w.emitL(fmt.Sprintf("(LPublish %s %d%%nat)", vBool(f), size))
 }
 
@@ -329,8 +333,15 @@ func (w *c01World) opPublishNoHist(f bool) {
 	p := c01Pub{Off: 0, Ep: 0, Filt: f}
 	w.byID[id] = p
 	w.glog = append(w.glog, p)
-	w.fl = append(w.fl, w.br.take()...)
+	w.takeTokens(id)
 	w.emitL(fmt.Sprintf("(LPublishNoHist %s)", vBool(f)))
+}
+
+func (w *c01World) takeTokens(id int) {
+	for _, tk := range w.br.take() {
+		tk.id = id
+		w.fl = append(w.fl, tk)
+	}
 }
 
 func (w *c01World) opReset() {
@@ -355,6 +366,12 @@ func (w *c01World) removeTok(i int) c01Tok {
 }
 
 func (w *c01World) deliverNow(tk c01Tok, lag bool) {
+	if tk.kind == 0 {
+		if w.phaseOf == nil {
+			w.phaseOf = map[int]int{}
+		}
+		w.phaseOf[tk.id] = w.curPh
+	}
 	switch tk.kind {
 	case 0:
 		pub := tk.pub
@@ -570,6 +587,7 @@ func (w *c01World) runOps(ops []c01Op) {
 }
 
 func (w *c01World) phase(k int) {
+	w.curPh = k
 	if k < len(w.sc.Phase) {
 		w.runOps(w.sc.Phase[k])
 	}
@@ -800,7 +818,7 @@ func (w *c01World) pubOf(p *protocol.Publication) c01Pub {
 	if ok {
 		ep = src.Ep
 	}
-	return c01Pub{Off: p.Offset, Ep: ep}
+	return c01Pub{Off: p.Offset, Ep: ep, ID: d.I}
 }
 
 func (w *c01World) decode() []c01Frame {
